@@ -560,7 +560,8 @@ func calculateObjectClassAndIsStatic(targetT base.T) (string, bool) {
 
 	// 1, '1', 1.1, [], {} and more...
 	switch targetT.GetType() {
-	case base.INT, base.FLOAT, base.ARRAY, base.HASH, base.STRING, base.OBJECT:
+	case base.INT, base.FLOAT, base.ARRAY, base.HASH, base.STRING, base.OBJECT,
+		base.SYMBOL, base.NIL, base.BOOL:
 		return targetT.GetObjectClass(), false
 
 	case base.UNKNOWN:
@@ -600,22 +601,24 @@ func isSuggest(targetT base.T, sig base.Sig) bool {
 		return false
 	}
 
-	if sig.Class == targetT.DefinedClass && sig.IsStatic == targetT.IsStatic {
+	// an instance is an instance, also when its value is what a class method
+	// (`new`) returned and still carries that method's static flag
+	isStaticContext := targetT.IsStatic && targetT.GetType() != base.OBJECT
+
+	if sig.Class == targetT.DefinedClass && sig.IsStatic == isStaticContext {
 		return true
 	}
 
-	if isParentClass(sig, targetT.DefinedFrame, targetT.DefinedClass, targetT.IsStatic, false, false) {
+	if isParentClass(sig, targetT.DefinedFrame, targetT.DefinedClass, isStaticContext, false, false) {
 		return true
-	}
-
-	if isStaticTarget != sig.IsStatic {
-		return false
 	}
 
 	if sig.Class == objectClass {
-		return true
+		return isStaticTarget == sig.IsStatic
 	}
 
+	// (isParentClass compares the static flags itself: across an `extend`
+	// edge an instance method of the module answers the class)
 	return isParentClass(sig, targetT.GetFrame(), objectClass, isStaticTarget, false, false)
 }
 
@@ -635,8 +638,11 @@ func isParentClass(
 		return false
 	}
 
-	if sig.IsStatic != isStaticTarget {
-		return false
+	// the instance methods of an extended module are class methods of the
+	// class that extends it
+	isStaticSig := sig.IsStatic
+	if isExtend {
+		isStaticSig = !sig.IsStatic
 	}
 
 	if sig.Method == "new" {
@@ -648,7 +654,7 @@ func isParentClass(
 	}
 
 	if sig.Frame == frame && sig.Class == class {
-		return true
+		return isStaticSig == isStaticTarget
 	}
 
 	classNode := base.ClassNode{Frame: frame, Class: class}
